@@ -22,14 +22,14 @@ theorem flatMap_flatten {α β : Type} (f : α → List β) :
   | [] => by simp
   | a :: l => by simp [List.flatMap_append, flatMap_flatten f l]
 
-theorem upsert_spec (all : List Str) (hH : NoBareClash all) (p n : Str) (hn : AllDig n)
+theorem upsert_spec (lim : Option Nat) (all : List Str) (hH : NoBareClash all) (p n : Str) (hn : AllDig n)
     (hsplit : splitNum (p ++ n) = (p, n)) (hall : p ++ n ∈ all) :
     ∀ (S : List (Str × PState)) (L : List Str), (∀ x ∈ L, x ∈ all) → p ++ n ∉ L →
       (∀ e ∈ S, PInv e.1 e.2 L) → (∀ e ∈ S, ∀ x ∈ numsOf e.2.runs, e.1 ++ x ∈ L) →
-      (den (upsert S p n)).Perm (den S ++ [p ++ n]) ∧
-        ∀ e ∈ upsert S p n, PInv e.1 e.2 (L ++ [p ++ n])
+      (den (upsert lim S p n)).Perm (den S ++ [p ++ n]) ∧
+        ∀ e ∈ upsert lim S p n, PInv e.1 e.2 (L ++ [p ++ n])
   | [], L, _, hnew, _, _ => by
-    obtain ⟨h1, h2⟩ := stepP_spec p n PState.empty L (PInv.empty p L) (by simp [PState.empty, numsOf])
+    obtain ⟨h1, h2⟩ := stepP_spec lim p n PState.empty L (PInv.empty p L) (by simp [PState.empty, numsOf])
       hn hsplit hnew (by simp [PState.empty])
     refine ⟨?_, ?_⟩
     · simp only [upsert, den, List.flatMap_cons, List.flatMap_nil, List.append_nil, List.nil_append]
@@ -48,7 +48,7 @@ theorem upsert_spec (all : List Str) (hH : NoBareClash all) (p n : Str) (hn : Al
         have ha : p' ++ [] ∈ all := hL _ hs.2.1
         have := hH (p' ++ []) ha (by rw [hs.2.2]) (p' ++ n) hall (by rw [hsplit, hs.2.2])
         exact hnew (by rw [this]; exact hs.2.1)
-      obtain ⟨h1, h2⟩ := stepP_spec p' n st L (hinv (p', st) (by simp)) (hmem (p', st) (by simp))
+      obtain ⟨h1, h2⟩ := stepP_spec lim p' n st L (hinv (p', st) (by simp)) (hmem (p', st) (by simp))
         hn hsplit hnew hne
       refine ⟨?_, ?_⟩
       · simp only [upsert, if_true, den, List.flatMap_cons]
@@ -62,7 +62,7 @@ theorem upsert_spec (all : List Str) (hH : NoBareClash all) (p n : Str) (hn : Al
         rcases he with rfl | he
         · exact h2
         · exact (hinv e (by simp [he])).mono (fun x hx => by simp [hx])
-    · obtain ⟨h1, h2⟩ := upsert_spec all hH p n hn hsplit hall r L hL hnew
+    · obtain ⟨h1, h2⟩ := upsert_spec lim all hH p n hn hsplit hall r L hL hnew
         (fun e he => hinv e (by simp [he])) (fun e he => hmem e (by simp [he]))
       refine ⟨?_, ?_⟩
       · simp only [upsert, if_neg hp, den, List.flatMap_cons, List.append_assoc]
@@ -73,10 +73,10 @@ theorem upsert_spec (all : List Str) (hH : NoBareClash all) (p n : Str) (hn : Al
         · exact (hinv _ (by simp)).mono (fun x hx => by simp [hx])
         · exact h2 e he
 
-theorem comp_fold (all : List Str) (hH : NoBareClash all) :
+theorem comp_fold (lim : Option Nat) (all : List Str) (hH : NoBareClash all) :
     ∀ (l : List Str) (S : List (Str × PState)) (L : List Str), (L ++ l).Nodup →
       (∀ x ∈ L ++ l, x ∈ all) → (den S).Perm L → (∀ e ∈ S, PInv e.1 e.2 L) →
-      (den (l.foldl compStep S)).Perm (L ++ l)
+      (den (l.foldl (compStep lim) S)).Perm (L ++ l)
   | [], S, L, _, _, hp, _ => by simpa using hp
   | h :: l, S, L, hnd, hall, hp, hinv => by
     simp only [List.foldl_cons, compStep]
@@ -85,22 +85,22 @@ theorem comp_fold (all : List Str) (hH : NoBareClash all) :
       rw [hh]; intro hin
       have := (List.nodup_append.mp hnd).2.2 h hin h (by simp)
       exact this rfl
-    obtain ⟨h1, h2⟩ := upsert_spec all hH (splitNum h).1 (splitNum h).2 (splitNum_allDig h)
+    obtain ⟨h1, h2⟩ := upsert_spec lim all hH (splitNum h).1 (splitNum h).2 (splitNum_allDig h)
       (by rw [hh]) (by rw [hh]; exact hall h (by simp)) S L
       (fun x hx => hall x (by simp [hx])) hnew hinv
       (fun e he x hx => hp.subset (List.mem_flatMap.mpr ⟨e, he, List.mem_map.mpr ⟨x, hx, rfl⟩⟩))
     rw [hh] at h1 h2
-    have := comp_fold all hH l _ (L ++ [h]) (by simpa using hnd) (by simpa using hall)
+    have := comp_fold lim all hH l _ (L ++ [h]) (by simpa using hnd) (by simpa using hall)
       (h1.trans (hp.append_right _)) h2
     simpa using this
 
 /-- `comp`: the range elements of all prefixes denote exactly the names given -/
-theorem comp_denotes (stems : List Str) (hnd : stems.Nodup) (hH : NoBareClash stems) :
-    ((comp stems).flatMap fun e => (numsOf e.2).map (e.1 ++ ·)).Perm stems := by
-  have hs : (sortn stems).Perm stems := stableSort_perm _ _
+theorem comp_denotes (lim : Option Nat) (stems : List Str) (hnd : stems.Nodup) (hH : NoBareClash stems) :
+    ((comp lim stems).flatMap fun e => (numsOf e.2).map (e.1 ++ ·)).Perm stems := by
+  have hs : (sortn stems).Perm stems := sortn_perm _
   have hH' : NoBareClash (sortn stems) := fun a ha h0 b hb hb' =>
     hH a (hs.subset ha) h0 b (hs.subset hb) hb'
-  have := comp_fold (sortn stems) hH' (sortn stems) [] [] (by simpa using hs.nodup_iff.mpr hnd)
+  have := comp_fold lim (sortn stems) hH' (sortn stems) [] [] (by simpa using hs.nodup_iff.mpr hnd)
     (by simp) (by simp [den]) (by simp)
   simp only [List.nil_append] at this
   refine List.Perm.trans ?_ (this.trans hs)
@@ -184,22 +184,22 @@ theorem elem_hosts_eq (p : Str) (runs : List Run) (suf : Str) :
     Elem.hosts ⟨p, runs, suf⟩ = ((numsOf runs).map (p ++ ·)).map (· ++ suf) := by
   simp [Elem.hosts, numsOf, List.map_map, Function.comp_def]
 
-theorem compressInner_denotes (stems : List Str) (suf : Str) (hnd : stems.Nodup)
+theorem compressInner_denotes (lim : Option Nat) (stems : List Str) (suf : Str) (hnd : stems.Nodup)
     (hH : NoBareClash stems) :
-    ((compressInner stems suf).flatMap Elem.hosts).Perm (stems.map (· ++ suf)) := by
-  have h1 : (sortByKey (comp stems)).Perm (comp stems) := stableSort_perm _ _
+    ((compressInner lim stems suf).flatMap Elem.hosts).Perm (stems.map (· ++ suf)) := by
+  have h1 : (sortByKey (comp lim stems)).Perm (comp lim stems) := stableSort_perm _ _
   simp only [compressInner, List.flatMap_map, elem_hosts_eq]
   have h2 := (h1.flatMap_right fun e => ((numsOf e.2).map (e.1 ++ ·)).map (· ++ suf))
   refine h2.trans ?_
-  have h3 := (comp_denotes stems hnd hH).map (· ++ suf)
+  have h3 := (comp_denotes lim stems hnd hH).map (· ++ suf)
   refine List.Perm.trans ?_ h3
   rw [List.map_flatMap]
 
 /-- `compress`: whatever the order of the suffix groups (Perl: hash order), the elements of the
 header denote exactly the names compressed -/
-theorem compress_denotes (g : List Str) (hnd : g.Nodup) (hdom : NoStemClash g)
-    (gs : List (List Elem)) (hgs : gs.Perm (compressGroups g)) : (hostsOf gs).Perm g := by
-  have hs : (sortn g).Perm g := stableSort_perm _ _
+theorem compress_denotes (lim : Option Nat) (g : List Str) (hnd : g.Nodup) (hdom : NoStemClash g)
+    (gs : List (List Elem)) (hgs : gs.Perm (compressGroups lim g)) : (hostsOf gs).Perm g := by
+  have hs : (sortn g).Perm g := sortn_perm _
   have hflat : (flat (suffixGroups g)).Perm g := by
     have := flat_fold (sortn g) []
     simp only [flat, List.flatMap_nil, List.nil_append] at this
@@ -218,7 +218,7 @@ theorem compress_denotes (g : List Str) (hnd : g.Nodup) (hdom : NoStemClash g)
     exact List.sublist_flatten_of_mem (List.mem_map.mpr ⟨e, he, rfl⟩)
   have hmem : ∀ s ∈ e.2, s ++ e.1 ∈ g := fun s hs =>
     hflat.subset (hsub.subset (List.mem_map.mpr ⟨s, hs, rfl⟩))
-  apply compressInner_denotes
+  apply compressInner_denotes lim
   · have : (e.2.map (· ++ e.1)).Nodup := hsub.nodup (hflat.nodup_iff.mpr hnd)
     exact List.Pairwise.of_map _ (fun a b hab h => hab (by rw [h])) this
   · intro a ha h0 b hb hb'
@@ -227,5 +227,147 @@ theorem compress_denotes (g : List Str) (hnd : g.Nodup) (hdom : NoStemClash g)
     have := hdom (a ++ e.1) (hmem a ha) (b ++ e.1) (hmem b hb) (by rw [ea, eb]) (by rw [ea]; exact h0)
       (by rw [ea, eb]; exact hb')
     exact List.append_cancel_right this
+
+/-! ### the repaired `compress` (F19-EMPTYSTEM): no domain restriction is left -/
+
+theorem dropWhile_head_false {p : Char → Bool} : ∀ {l : Str} {c : Char} {r : Str},
+    l.dropWhile p = c :: r → p c = false
+  | [], _, _, h => by simp at h
+  | a :: l, c, r, h => by
+    simp only [List.dropWhile_cons] at h
+    split at h
+    · exact dropWhile_head_false h
+    · rename_i hp
+      simp only [List.cons.injEq] at h
+      rw [← h.1]; simpa using hp
+
+/-- a non-empty stem ends in a digit: it carries a number -/
+theorem stem_has_number (t : Str) (h : (splitSuffix t).1 ≠ []) : (splitNum (splitSuffix t).1).2 ≠ [] := by
+  simp only [splitSuffix, splitNum, List.reverse_reverse] at h ⊢
+  cases hd : t.reverse.dropWhile (fun c => !isDig c) with
+  | nil => rw [hd] at h; simp at h
+  | cons c r =>
+    have hc := dropWhile_head_false hd
+    simp only [Bool.not_eq_false'] at hc
+    simp [List.takeWhile_cons, hc]
+
+theorem hostsOf_plain : ∀ (l : List Str),
+    hostsOf (l.map fun t => [(⟨t, [⟨[], none⟩], []⟩ : Elem)]) = l
+  | [] => rfl
+  | t :: l => by
+    have ih := hostsOf_plain l
+    simp only [hostsOf] at ih ⊢
+    simp only [List.map_cons, List.flatten_cons, List.cons_append, List.nil_append, List.flatMap_cons, ih]
+    simp [Elem.hosts, Run.nums]
+
+/-- `compress` after the repair: whatever the order of the groups, the header denotes exactly the
+names compressed — for EVERY set of distinct names (no `NoStemClash` needed any more) -/
+theorem compress_fixed_denotes (lim : Option Nat) (g : List Str) (hnd : g.Nodup)
+    (gs : List (List Elem)) (hgs : gs.Perm (compressGroupsFixed lim g)) : (hostsOf gs).Perm g := by
+  have hs : (sortn g).Perm g := sortn_perm _
+  have h1 : (hostsOf gs).Perm (hostsOf (compressGroupsFixed lim g)) := by
+    unfold hostsOf
+    exact (hgs.flatten).flatMap_right _
+  refine h1.trans ?_
+  have hsplit : hostsOf (compressGroupsFixed lim g) =
+      (sortn g).filter noStem ++ hostsOf (compressGroups lim (g.filter fun t => !noStem t)) := by
+    have := hostsOf_plain ((sortn g).filter noStem)
+    simp only [hostsOf] at this ⊢
+    simp only [compressGroupsFixed, List.flatten_append, List.flatMap_append, this]
+  rw [hsplit]
+  have hB : (hostsOf (compressGroups lim (g.filter fun t => !noStem t))).Perm
+      (g.filter fun t => !noStem t) := by
+    apply compress_denotes lim _ (hnd.sublist List.filter_sublist) _ _ (List.Perm.refl _)
+    intro a ha b _ _ h0 _
+    exfalso
+    have hne : (splitSuffix a).1 ≠ [] := by
+      have := (List.mem_filter.mp ha).2
+      simp only [noStem, Bool.not_eq_eq_eq_not, Bool.not_true, List.isEmpty_eq_false_iff] at this
+      exact this
+    exact stem_has_number a hne h0
+  exact ((hs.filter noStem).append hB).trans (List.filter_append_perm noStem g)
+
+/-! ### the repaired `comp` (F19-LONGRUN): no range element spans more than the limit -/
+
+def Within (m : Nat) (runs : List Run) : Prop := ∀ r ∈ runs, r.hi - r.lo < m
+
+theorem stepP_within (m : Nat) (hm : 0 < m) (st : PState) (n : Str) (h : Within m st.runs) :
+    Within m (stepP (some m) st n).runs := by
+  unfold stepP
+  simp only
+  cases hfi : findIdx (some m) st n with
+  | none =>
+    intro r hr
+    simp only [List.mem_append, List.mem_singleton] at hr
+    rcases hr with hr | rfl
+    · exact h r hr
+    · simpa [Run.hi, Run.lo] using hm
+  | some i =>
+    intro r hr
+    rcases mem_setStop hr with hr | ⟨r0, hr0, rfl⟩
+    · exact h r hr
+    · unfold findIdx at hfi
+      split at hfi
+      · rename_i j _
+        split at hfi
+        · rename_i hw
+          simp only [Option.some.injEq] at hfi
+          subst hfi
+          simp only [withinLim, hr0, decide_eq_true_eq] at hw
+          simpa [Run.hi, Run.lo] using hw
+        · simp at hfi
+      · simp at hfi
+
+theorem upsert_within (m : Nat) (hm : 0 < m) : ∀ (S : List (Str × PState)) (p n : Str),
+    (∀ e ∈ S, Within m e.2.runs) → ∀ e ∈ upsert (some m) S p n, Within m e.2.runs
+  | [], p, n, _, e, he => by
+    simp only [upsert, List.mem_singleton] at he
+    subst he
+    exact stepP_within m hm _ n (by simp [Within, PState.empty])
+  | (p', st) :: r, p, n, h, e, he => by
+    by_cases hp : p' = p
+    · simp only [upsert, hp, if_true, List.mem_cons] at he
+      rcases he with rfl | he
+      · exact stepP_within m hm st n (h (p', st) (by simp))
+      · exact h e (by simp [he])
+    · simp only [upsert, if_neg hp, List.mem_cons] at he
+      rcases he with rfl | he
+      · exact h _ (by simp)
+      · exact upsert_within m hm r p n (fun x hx => h x (by simp [hx])) e he
+
+theorem fold_within (m : Nat) (hm : 0 < m) : ∀ (l : List Str) (S : List (Str × PState)),
+    (∀ e ∈ S, Within m e.2.runs) → ∀ e ∈ l.foldl (compStep (some m)) S, Within m e.2.runs
+  | [], _, h => h
+  | a :: l, S, h => by
+    simp only [List.foldl_cons]
+    exact fold_within m hm l _ (upsert_within m hm S _ _ h)
+
+/-- with the repair, no range element of a header spans more than `m` numbers (m = 16384 =
+hostlist.c's MAX_RANGE: pdsh accepts every such range) -/
+theorem compressV_within (m : Nat) (hm : 0 < m) (stemFix : Bool) (tags : List Str) :
+    ∀ grp ∈ compressV (some m) stemFix tags, ∀ e ∈ grp, Within m e.runs := by
+  have hcg : ∀ ts, ∀ grp ∈ compressGroups (some m) ts, ∀ e ∈ grp, Within m e.runs := by
+    intro ts grp hgrp e he
+    simp only [compressGroups, List.mem_map] at hgrp
+    obtain ⟨g, _, rfl⟩ := hgrp
+    simp only [compressInner, List.mem_map] at he
+    obtain ⟨x, hx, rfl⟩ := he
+    have hx' : x ∈ comp (some m) g.2 := (stableSort_perm _ _).subset hx
+    simp only [comp, List.mem_map] at hx'
+    obtain ⟨y, hy, rfl⟩ := hx'
+    exact fold_within m hm _ [] (by simp) y hy
+  intro grp hgrp e he
+  unfold compressV at hgrp
+  split at hgrp
+  · simp only [compressGroupsFixed, List.mem_append, List.mem_map] at hgrp
+    rcases hgrp with ⟨t, _, rfl⟩ | h
+    · simp only [List.mem_singleton] at he
+      subst he
+      intro r hr
+      simp only [List.mem_singleton] at hr
+      subst hr
+      simpa [Run.hi, Run.lo] using hm
+    · exact hcg _ grp h e he
+  · exact hcg _ grp hgrp e he
 
 end PdshVerif.Dshbak
